@@ -130,7 +130,9 @@ def base_id(uri):
 
 def run_history(hist):
     """hist: {"steps": [step, ...]} with step = dict(k, t, src, ep, d, loc, lt,
-    base, x, links, var, n) as in the model's `hist' (k = reg|upd|put|del|adv).
+    base, x, links, var, n) as in the model's `hist' (k = reg|upd|put|del|adv),
+    optionally `id' (registration steps) and `ref' (requests to a location: id
+    of the registration step whose location is meant).
     Returns {"events": [...], "meta": {...}}; every event has the same fields."""
     w = World()
     sent = []
@@ -199,8 +201,21 @@ def run_history(hist):
                     return m
             return None
 
-        def target(loc):
-            return list(loc_paths.get(loc) or (prefix + ("nx%d" % loc, "")))
+        got = {}  # id of a registration step -> Location-Path it obtained in this run
+
+        def target(st):
+            """(path, symbolic number) a request of step st is aimed at: the
+            location the referenced registration step obtained in *this* run
+            (`ref'), else the symbolic location `loc', else a path that does
+            not exist (numbers >= 900 are not locations)."""
+            ref = st.get("ref")
+            if ref is not None:
+                path = got.get(ref)
+            else:
+                path = loc_paths.get(st["loc"])
+            if path is None:
+                return list(prefix + ("nx%d" % st["loc"], "")), 900 + st["loc"]
+            return list(path), sym(path)
 
         async def lookups():
             m = await request(wire.GET, ep_path)
@@ -295,8 +310,11 @@ def run_history(hist):
                 if m is not None:
                     lp = wire.opts(m, wire.LOCATION_PATH)
                     if lp and (m["code"] >> 5) == 2:
-                        loc = sym(x_.decode("utf8") for x_ in lp)
+                        lpath = tuple(x_.decode("utf8") for x_ in lp)
+                        loc = sym(lpath)
                         owner[loc] = (ep, d)
+                        if "id" in st:
+                            got[st["id"]] = lpath
                 ev("reg", src=src, ep=ep if var != "noep" else "", d=d, loc=loc, lt=lt, base=base, x=x, links=links,
                    var=var, vg=vg, code=m["code"] if m else 0, cls=(m["code"] >> 5) if m else 0)
             elif k == "upd":
@@ -311,11 +329,13 @@ def run_history(hist):
                     payload, cf = b"</x>", LINKFORMAT
                 elif var == "cf":
                     cf = LINKFORMAT
-                m = await request(wire.POST, target(st["loc"]), q, payload, cf, src)
-                ev("upd", src=src, loc=st["loc"], lt=lt, base=base, x=x, var=var, vg=vg,
+                tpath, tloc = target(st)
+                m = await request(wire.POST, tpath, q, payload, cf, src)
+                ev("upd", src=src, loc=tloc, lt=lt, base=base, x=x, var=var, vg=vg,
                    code=m["code"] if m else 0, cls=(m["code"] >> 5) if m else 0)
             elif k == "put":
-                oep, od = owner.get(st["loc"], ("zz", "zz"))
+                tpath, tloc = target(st)
+                oep, od = owner.get(tloc, ("zz", "zz"))
                 payload, cf = links_payload(oep, od, links), LINKFORMAT
                 if var == "ep":
                     q.append("ep=e1")
@@ -323,12 +343,13 @@ def run_history(hist):
                     cf = None
                 elif var == "badlf":
                     payload = b"<unterminated"
-                m = await request(wire.PUT, target(st["loc"]), q, payload, cf, src)
-                ev("put", src=src, loc=st["loc"], lt=lt, base=base, x=x, links=links, var=var, vg=vg,
+                m = await request(wire.PUT, tpath, q, payload, cf, src)
+                ev("put", src=src, loc=tloc, lt=lt, base=base, x=x, links=links, var=var, vg=vg,
                    code=m["code"] if m else 0, cls=(m["code"] >> 5) if m else 0)
             elif k == "del":
-                m = await request(wire.DELETE, target(st["loc"]), (), b"", None, src)
-                ev("del", src=src, loc=st["loc"], var="ok", vg="ok",
+                tpath, tloc = target(st)
+                m = await request(wire.DELETE, tpath, (), b"", None, src)
+                ev("del", src=src, loc=tloc, var="ok", vg="ok",
                    code=m["code"] if m else 0, cls=(m["code"] >> 5) if m else 0)
             else:
                 raise MachineryError("rddrive: unknown step %r" % (st,))
